@@ -67,6 +67,19 @@ func TestPrehashBuffers(t *testing.T) {
 		if err != nil || !bytes.Equal(again, saved[0]) {
 			rt.Fatalf("%s: ComputePrehash changed after the caller mutated an earlier result", desc)
 		}
+		// one message buffer reused for a second message on the same object
+		buf := p.in("reused message", msgs[0])
+		if _, err := ph.ComputePrehash(buf); err != nil {
+			rt.Fatalf("%s: ComputePrehash: %v", desc, err)
+		}
+		p.verify("ComputePrehash")
+		p.scribble()
+		cur := bytes.Clone(buf)
+		got, err1 := ph.ComputePrehash(buf)
+		want, err2 := tk.Must(signprehash.NewPrehash(pub)).ComputePrehash(cur)
+		if err1 != nil || err2 != nil || !bytes.Equal(got, want) {
+			rt.Fatalf("%s: ComputePrehash through a buffer that held another message at the previous call differs from a fresh object's result (%v, %v)", desc, err1, err2)
+		}
 		finish(p, "prehash/"+inst.String(), evid.NewH().S(desc).I(int64(id)).B(msgs[0]).Sum(), map[string]any{"primitive": desc, "batch": n})
 	})
 }
